@@ -47,3 +47,4 @@ pub open spec fn num_text(p: Seq<Option<u8>>) -> Seq<u8> {
         (if at(p, num_frac_end(p) + 1) == Some(0x2du8) { t.push(0x2du8) } else { t }).add(seg(p, num_exp_digits_at(p), num_end(p)))
     } else { num_text_frac(p) }
 }
+
